@@ -8,7 +8,8 @@
 //                  nbsimu x seeds x nvar: at every target coinciding with a datum the simulated value of EVERY rank
 //                  equals the datum; the run repeated in the same process is bit-identical; ranks differ; a different
 //                  (non-congruent) seed gives a different result.
-//   repro          (E1+E3) every simulator (simtub NC/cond, simfft, gibbs_sampler, simpgs NC/cond) x seed menu
+//   repro          (E1+E3) every simulator (simtub NC/cond, simbayes, simfft, gibbs_sampler, simpgs NC/cond, simulateSPDE NC/cond,
+//                  simuSpectral, Cholesky draw z = L u) x seed menu
 //                  (incl. the collision inputs around the modulus) x nbsimu: run twice + once in a fresh child:
 //                  bit-identical; non-congruent seeds differ; ranks differ; the degenerate seed 20000159 is only
 //                  required to be reproducible and not to crash / hang.
@@ -28,6 +29,11 @@
 #include "Simulation/CalcSimuFFT.hpp"
 #include "Simulation/CalcSimuTurningBands.hpp"
 #include "Simulation/SimuFFTParam.hpp"
+#include "Simulation/SimuSpectral.hpp"
+#include "API/SPDE.hpp"
+#include "Mesh/MeshETurbo.hpp"
+#include "LinearOp/MatrixSquareSymmetricSim.hpp"
+#include "Matrix/MatrixSquareSymmetric.hpp"
 #include "Space/ASpaceObject.hpp"
 
 using namespace vf;
@@ -169,8 +175,10 @@ static std::string bits(const std::vector<std::vector<double>>& R)
 }
 static bool same_bits(const std::vector<double>& a, const std::vector<double>& b) { return a.size() == b.size() && memcmp(a.data(), b.data(), a.size() * 8) == 0; }
 // two seeds are equivalent for the 24-bit generator when the first draw leaves it in the same state
-static bool seeds_equivalent(int s1, int s2) { return lcg_next_seed32(s1) == lcg_next_seed32(s2); }
-static bool seed_degenerate(int s) { return lcg_next_seed32(s) == 0; }
+// (either as the original code computes it, 32-bit wrap of 105*seed, or after the seed has been reduced modulo M as the
+// repaired law_set_random_seed does: both readings are accepted, the property never requires congruent seeds to differ)
+static bool seeds_equivalent(int s1, int s2) { return lcg_next_seed32(s1) == lcg_next_seed32(s2) || (s1 % M) == (s2 % M); }
+static bool seed_degenerate(int s) { return lcg_next_seed32(s) == 0 || (s % M) == 0; }
 
 static Model* model_menu(int im, int nvar)
 {
@@ -322,8 +330,12 @@ VF_PART(simtub_cond)
 
 // =========================================================================================================
 // repro : every simulator, seed menu, run twice + fresh child
-enum SimKind { SIM_TUB_NC_GRID, SIM_TUB_NC_PTS, SIM_TUB_COND, SIM_FFT, SIM_GIBBS, SIM_GIBBS_MM, SIM_PGS_NC, SIM_PGS_COND, SIM_BAYES, NSIM };
-static const char* simname[NSIM] = {"simtub-nc-grid", "simtub-nc-points", "simtub-cond", "simfft", "gibbs", "gibbs-multimono", "simpgs-nc", "simpgs-cond", "simbayes"};
+// (new simulators are appended so that the case ids of the first nine stay what they were)
+enum SimKind { SIM_TUB_NC_GRID, SIM_TUB_NC_PTS, SIM_TUB_COND, SIM_FFT, SIM_GIBBS, SIM_GIBBS_MM, SIM_PGS_NC, SIM_PGS_COND, SIM_BAYES, SIM_SPDE_NC, SIM_SPDE_COND, SIM_SPECTRAL, SIM_CHOL, NSIM };
+static const char* simname[NSIM] = {"simtub-nc-grid", "simtub-nc-points", "simtub-cond", "simfft", "gibbs", "gibbs-multimono", "simpgs-nc", "simpgs-cond", "simbayes", "spde-nc", "spde-cond", "spectral", "cholesky"};
+// largest |simulated - datum| over the grid nodes coinciding with a datum, last conditional SPDE run (recorded, not judged:
+// SPDE kriging gives every datum the variance max(nugget, epsNugget * sill) = 1 % of the sill, so it is not exact by construction)
+static double g_spde_cond_dev = -1.;
 
 // returns error code; R = all columns added to the output Db
 static int run_sim(int kind, int seed, int nbsimu, std::vector<std::vector<double>>& R)
@@ -396,6 +408,66 @@ static int run_sim(int kind, int seed, int nbsimu, std::vector<std::vector<doubl
       err = gibbs_sampler(db, m, nbsimu, seed, 5, 20, false, false, kind == SIM_GIBBS_MM, false, true, 0, 5., false, false, false);
       R = result_cols(db, n0);
       delete db; delete m;
+      break;
+    }
+    case SIM_SPDE_NC:
+    case SIM_SPDE_COND:
+    {
+      // simulateSPDE has no seed argument: the realisation is a function of the generator state at the call, so
+      // "same inputs and seed" = law_set_random_seed(seed) right before the call (as tests/cpp/test_SPDEAPI.cpp does)
+      Model* m = Model::createFromParam(ECov::MATERN, 2., 1.5, 1.);
+      DbGrid* g = DbGrid::create({3, 3});
+      MeshETurbo* mesh = MeshETurbo::create({7, 7}, {1., 1.}, {-2., -2.});
+      DataSet D = data_menu(1);  // data at (0,0), (2,1), (1,2) on nodes and (0.5,1.5) off node
+      Db* din = kind == SIM_SPDE_COND ? make_db_xz({D.x, D.y}, {D.z1}) : nullptr;
+      int n0 = g->getColumnNumber();
+      law_set_random_seed(seed);
+      int rc = simulateSPDE(din, g, m, nullptr, nbsimu, mesh, 1);
+      R = result_cols(g, n0);
+      // simulateSPDE is documented to return an error code but returns SPDE::compute()'s value = UID of the first
+      // created column on success (3 here) and 1 on failure; success is therefore decided on the created columns
+      (void)rc;
+      err = ((int)R.size() == nbsimu) ? 0 : 1;
+      if (din != nullptr && err == 0)
+      {
+        double dev = 0.;
+        for (int i = 0; i < g->getSampleNumber(); i++)
+          for (size_t k = 0; k < D.x.size(); k++)
+            if (g->getCoordinate(i, 0) == D.x[k] && g->getCoordinate(i, 1) == D.y[k])
+              for (auto& c : R) dev = std::max(dev, std::fabs(c[i] - D.z1[k]));
+        g_spde_cond_dev = dev;
+      }
+      delete din; delete g; delete m; delete mesh;
+      break;
+    }
+    case SIM_SPECTRAL:
+    {
+      Model* m = Model::createFromParam(ECov::EXPONENTIAL, 2., 1.5);
+      std::vector<double> tx, ty;
+      point_targets(tx, ty);
+      Db* d = make_db({tx, ty}, {"x1", "x2"}, {"x1", "x2"});
+      int n0 = d->getColumnNumber();
+      err = simuSpectral(nullptr, d, m, nbsimu, seed, 20);
+      R = result_cols(d, n0);
+      delete d; delete m;
+      break;
+    }
+    case SIM_CHOL:
+    {
+      // z = L u with u = VH::simulateGaussian after law_set_random_seed(seed); nbsimu successive draws = ranks
+      const int n = 4;
+      const double B[16] = {1., 0., 0., 0., 0.5, 1.25, 0., 0., 0.25, -0.5, 1., 0., -0.125, 0.75, 0.5, 0.75};
+      MatrixSquareSymmetric M(n);
+      for (int i = 0; i < n; i++) for (int j = 0; j < n; j++) { double v = 0; for (int k = 0; k < n; k++) v += B[i * n + k] * B[j * n + k]; M.setValue(i, j, v); }
+      MatrixSquareSymmetricSim S(&M, false);
+      err = S.isEmpty() ? 1 : 0;
+      law_set_random_seed(seed);
+      for (int is = 0; is < nbsimu && err == 0; is++)
+      {
+        VectorDouble u = VH::simulateGaussian(n), z;
+        err = S.evalSimulate(u, z);
+        R.push_back(std::vector<double>(z.begin(), z.end()));
+      }
       break;
     }
     case SIM_PGS_NC:
@@ -471,6 +543,8 @@ VF_PART(repro)
       return;
     }
     C.nontrivial(id);
+    if (kind == SIM_SPDE_COND && g_spde_cond_dev >= 0.)
+      C.outcome(std::string("spde-cond:max|sim-datum| at coinciding nodes ") + (g_spde_cond_dev <= 1e-8 ? "<=1e-8" : g_spde_cond_dev <= 1e-2 ? "<=1e-2" : g_spde_cond_dev <= 0.1 ? "<=0.1" : ">0.1") + " (not judged: epsNugget)");
     bool ok = true;
     if (s1 != s2) { ok = false; C.violation(std::string("repro:") + simname[kind] + ":same-process", desc + ": two runs in the same process (generator disturbed in between) differ", kase); }
     if (s1 != cr.data) { ok = false; C.violation(std::string("repro:") + simname[kind] + ":fresh-process", desc + ": the run in a fresh process differs from the run in this process", kase); }
